@@ -100,7 +100,7 @@ class AddInteractionsFrom(Contract):
             ctx.loop_k = L.k
             return [('0 <= k', L.k >= 0)] + self.fold_clauses(ctx, c, ctx.graphs['self'], ctx.views['self'], L.k, L.assuming)
         allc = [x for x in HGraph('self', self.directed, self.cls).comp_names() if x not in ('ER', 'GAttr', 'Frozen')]
-        return {'seq:ed': LoopSpec(inv, modifies={'self': allc}, tags=('C01', 'C07'))}
+        return {'seq/1': LoopSpec(inv, modifies={'self': allc}, tags=('C01', 'C07'))}
 
     def finish(self, ctx, c, outcome):
         g = c.g
